@@ -7,7 +7,7 @@ from typing import Dict, List, Optional, Set, Tuple
 
 from .core import AnalysisError, Report
 from .emit import Folder, Slot, Tpl
-from .prog import (ClassInfo, Program, bind_call, dotted, enclosing, func_params, guards_of, inline_locals,
+from .prog import (ClassInfo, Program, bind_call, clone_expr, dotted, enclosing, func_params, guards_of, inline_locals,
                    local_assignments, parent, stmt_of, unparse, walk_no_nested)
 
 MW = "gtwrap/matlab_wrapper/wrapper.py"
@@ -1033,9 +1033,19 @@ def rule_one_id_per_arity(ctx, rep: Report, rid="M5"):
         rep.add(rid, f"{meth}:every arity of the expanded overload list allocates its own gateway id inside the loop over overloads",
                 ok and src_ok, f"{len(per_overload)} allocation(s) inside overload loops", f"{ci.mod.rel}:{fn.lineno}")
     gm = prog.method("MatlabWrapper", "_group_methods")
-    calls = [c for c in walk_no_nested(gm) if isinstance(c, ast.Call) and unparse(c.func).endswith("_expand_default_arguments")]
-    rep.add(rid, "_group_methods:every method is expanded into its arities (first occurrence and later overloads alike)", len(calls) == 2,
-            f"{len(calls)} expansion calls", f"{ci.mod.rel}:{gm.lineno}")
+    # every contribution to the grouped output is the default expansion of a method, never the raw method
+    contrib = []
+    for c in ast.walk(gm):
+        if isinstance(c, ast.Call) and isinstance(c.func, ast.Attribute) and c.func.attr in ("append", "extend", "insert") and c.args:
+            contrib.append(c.args[-1])
+        elif isinstance(c, ast.AugAssign) and isinstance(c.op, ast.Add):
+            contrib.append(c.value)
+        elif isinstance(c, ast.Return) and isinstance(c.value, (ast.ListComp, ast.GeneratorExp)):
+            contrib.append(c.value.elt)
+    expanded = [any(isinstance(x, ast.Call) and unparse(x.func).endswith("_expand_default_arguments") for x in ast.walk(v)) for v in contrib]
+    rep.add(rid, "_group_methods:every method is expanded into its arities (first occurrence and later overloads alike)",
+            bool(contrib) and all(expanded), f"{sum(expanded)} of {len(contrib)} contributions to the grouped list go through "
+            "_expand_default_arguments", f"{ci.mod.rel}:{gm.lineno}")
     if n < 4:
         raise AnalysisError(f"{rep.prop}/{rid}: {n} per-overload allocation sites")
 
@@ -1142,6 +1152,18 @@ def rule_marshalling_table(ctx, rep: Report, rid="M7"):
 
 
 
+def _lambda_body(e):
+    """Normal form of a key function: body of a one-parameter lambda with the parameter renamed."""
+    if isinstance(e, ast.Lambda) and len(e.args.args) == 1:
+        p = e.args.args[0].arg
+        b = clone_expr(e.body)
+        for n in ast.walk(b):
+            if isinstance(n, ast.Name) and n.id == p:
+                n.id = "_"
+        return unparse(b)
+    return unparse(e)
+
+
 def rule_group_by_name(ctx, rep: Report, rid="M5"):
     """All overloads of one name end up in one group (one .m function, one chain of arity tests):
     the group is looked up by name among *all* groups built so far, not only the previous one."""
@@ -1149,7 +1171,24 @@ def rule_group_by_name(ctx, rep: Report, rid="M5"):
     fn = prog.method("MatlabWrapper", "_group_methods")
     loop = next((l for l in fn.body if isinstance(l, ast.For)), None)
     if loop is None:
-        raise AnalysisError("_group_methods: loop not found")
+        # itertools.groupby merges *consecutive* equal keys only: sound iff its input is sorted by the same key
+        gb = [c for c in ast.walk(fn) if isinstance(c, ast.Call) and (dotted(c.func) or "").split(".")[-1] == "groupby"]
+        if not gb:
+            raise AnalysisError("_group_methods: neither a grouping loop nor a groupby call found")
+        for c in gb:
+            src = c.args[0] if c.args else None
+            key = next((k.value for k in c.keywords if k.arg == "key"), c.args[1] if len(c.args) > 1 else None)
+            skey = None
+            if isinstance(src, ast.Call) and unparse(src.func) == "sorted":
+                skey = next((k.value for k in src.keywords if k.arg == "key"), None)
+            same = key is not None and skey is not None and _lambda_body(key) == _lambda_body(skey)
+            rep.add(rid, "_group_methods:overloads are gathered by name across the whole list (name -> group table)", same,
+                    "groupby() merges only consecutive items with equal names and its input is not sorted by that name here: "
+                    "overloads of one free function separated by another declaration form two groups, the second <name>.m "
+                    "overwrites the first and the ids of the first group have no call site", f"{ci.mod.rel}:{c.lineno}")
+        return
+    if not isinstance(loop.target, ast.Name):
+        raise AnalysisError("_group_methods: loop target is not a plain name")
     mv = loop.target.id
     dicts = [st.targets[0].id for st in fn.body if isinstance(st, ast.Assign) and isinstance(st.value, ast.Dict) and not st.value.keys
              and isinstance(st.targets[0], ast.Name)]
